@@ -366,6 +366,99 @@ def _contains_range(item, values):
     return SymBool(z3.Or(conds) if len(conds) > 1 else conds[0])
 
 
+import re as _re
+import codecs as _codecs
+
+_SAFE_BUILTINS = frozenset([len, iter, next, isinstance, issubclass, hasattr, getattr, setattr, repr, sorted, print, id,
+                            abs, sum, any, all, format, hash, callable, divmod, builtins.bool] +
+                           [getattr(builtins, n) for n in ('min', 'max', 'ord', 'chr')])
+
+
+def _model_utf_8_decode(data, errors='strict', final=False):
+    """codecs.utf_8_decode: returns (text, consumed); with final=False an incomplete trailing sequence is left unconsumed"""
+    from .refmodel import utf8_doom_offset
+    it = items_of(data)
+    n = len(it)
+    if errors != 'strict':
+        raise EngineLimit('codecs.utf_8_decode(errors=%r) on symbolic data' % (errors,))
+    if final:
+        return symdata.decode_items(it, 'utf-8', 'strict'), n
+    for k in range(n, _max(-1, n - 4), -1):
+        if Ctx.cur.branch(symdata.utf8_valid_term(it[:k])):
+            tail = it[k:]
+            if tail and utf8_doom_offset(tail, list(range(1, len(tail) + 1))) is not None:
+                raise UnicodeDecodeError('utf-8', b'\xff', 0, 1, 'invalid continuation byte (symbolic)')
+            return (symdata.SymStr(utf8=it[:k]) if not symdata._concrete(it[:k]) else _bytes(it[:k]).decode('utf-8')), k
+    raise UnicodeDecodeError('utf-8', b'\xff', 0, 1, 'invalid start byte (symbolic)')
+
+
+NATIVE_MODELS = {_codecs.utf_8_decode: _model_utf_8_decode}
+
+
+class FakeMatch(object):
+    def __init__(self, i, j):
+        self._i, self._j = i, j
+
+    def start(self, *a):
+        return self._i
+
+    def end(self, *a):
+        return self._j
+
+    def span(self, *a):
+        return (self._i, self._j)
+
+    def __bool__(self):
+        return True
+
+
+def regex_model(pat, name, a, k):
+    """re.Pattern.search/match/fullmatch for patterns that are ONE character class (the usual fast-path idiom,
+    e.g. [\\x80-\\xff]); anything else is beyond the model"""
+    import re._parser as rp
+    parsed = list(rp.parse(pat.pattern, pat.flags & ~_re.UNICODE if isinstance(pat.pattern, _bytes) else pat.flags))
+    if len(parsed) != 1 or k or len(a) != 1 or name not in ('search', 'match', 'fullmatch'):
+        raise EngineLimit('un-modelled regular expression %r.%s on symbolic data' % (pat.pattern, name))
+    op, arg = parsed[0]
+    ranges = []
+    negate = False
+    if str(op) == 'LITERAL':
+        ranges.append((arg, arg))
+    elif str(op) == 'IN':
+        for o2, a2 in arg:
+            if str(o2) == 'NEGATE':
+                negate = True
+            elif str(o2) == 'LITERAL':
+                ranges.append((a2, a2))
+            elif str(o2) == 'RANGE':
+                ranges.append(tuple(a2))
+            else:
+                raise EngineLimit('un-modelled regular expression %r on symbolic data' % (pat.pattern,))
+    else:
+        raise EngineLimit('un-modelled regular expression %r on symbolic data' % (pat.pattern,))
+    data = a[0]
+    items = items_of(data) if not isinstance(data, (SymStr, _str)) else symdata._str_items(data)
+
+    def member(x):
+        if isinstance(x, _int):
+            r = any(lo <= x <= hi for lo, hi in ranges)
+        else:
+            x = SymInt.lift(x)
+            r = bool(SymBool(z3.Or([z3.And(z3.UGE(x.e, engine.bvv(lo, x.w)), z3.ULE(x.e, engine.bvv(_min(hi, (1 << x.w) - 1), x.w)))
+                                    for lo, hi in ranges if lo < (1 << x.w)] or [z3.BoolVal(False)])))
+        return r != negate
+    if name == 'search':
+        for i, x in enumerate(items):
+            if member(x):
+                return FakeMatch(i, i + 1)
+        return None
+    if not items:
+        return None
+    if name == 'fullmatch' and len(items) != 1:
+        return None
+    return FakeMatch(0, 1) if member(items[0]) else None
+
+
 _NATIVE_SEQ = (_bytes, _bytearray, _memoryview)
 _PURE = frozenset(['find', 'index', 'split', 'partition', 'startswith', 'endswith', 'strip', 'lstrip',
                    'rstrip', 'lower', 'upper', 'decode', 'hex'])
@@ -447,8 +540,18 @@ class SX(object):
                 isinstance(f, (types.FunctionType, types.MethodType)) or isinstance(obj, type):
             # containers hold symbolic values natively; python-level callables just get them
             return f(*a, **k)
-        if isinstance(obj, types.ModuleType) or getattr(obj, '_sx_accepts_symbolic', False):
+        if getattr(obj, '_sx_accepts_symbolic', False):
             return f(*a, **k)
+        if isinstance(obj, types.ModuleType):
+            if isinstance(f, types.BuiltinFunctionType):
+                m = NATIVE_MODELS.get(f)
+                if m is None:
+                    raise EngineLimit('un-modelled native function %s.%s called with a symbolic argument'
+                                      % (obj.__name__, name))
+                return m(*a, **k)
+            return f(*a, **k)
+        if isinstance(obj, _re.Pattern):
+            return regex_model(obj, name, a, k)
         if isinstance(f, types.BuiltinFunctionType) and isinstance(getattr(f, '__self__', None), (list, dict, set)):
             return f(*a, **k)
         # python-level bound callables (functools.partial, classes) are fine too
@@ -456,6 +559,29 @@ class SX(object):
             return f(*a, **k)
         raise EngineLimit('un-modelled native call %s.%s with symbolic argument'
                           % (type(obj).__name__, name))
+
+    @staticmethod
+    def callf(f, *a, **k):
+        """plain-name call f(a...): python-level callables and sym-aware builtins get the values as they are; a C
+        function that would receive a symbolic value needs a model (else: EngineLimit naming it, exit 3)"""
+        if isinstance(f, types.BuiltinFunctionType) and f not in _SAFE_BUILTINS:
+            sym = False
+            for x in a:
+                if has_sym(x):
+                    sym = True
+                    break
+            if not sym:
+                for x in k.values():
+                    if has_sym(x):
+                        sym = True
+                        break
+            if sym:
+                m = NATIVE_MODELS.get(f)
+                if m is None:
+                    raise EngineLimit('un-modelled native function %s.%s called with a symbolic argument'
+                                      % (getattr(f, '__module__', '?'), getattr(f, '__name__', f)))
+                return m(*a, **k)
+        return f(*a, **k)
 
     @staticmethod
     def fix(d):
@@ -568,6 +694,13 @@ class Rewriter(ast.NodeTransformer):
     def visit_Call(self, node):
         self.generic_visit(node)
         f = node.func
+        if (isinstance(f, ast.Name) and f.id not in ('super', 'globals', 'locals', 'vars', 'dir', 'eval', 'exec')
+                and not any(isinstance(a, ast.Starred) for a in node.args)
+                and not any(kw.arg is None for kw in node.keywords)):
+            new = ast.Call(
+                func=ast.Attribute(value=ast.Name(id='sx__', ctx=ast.Load()), attr='callf', ctx=ast.Load()),
+                args=[f] + node.args, keywords=node.keywords)
+            return ast.copy_location(new, node)
         if (isinstance(f, ast.Attribute)
                 and not any(isinstance(a, ast.Starred) for a in node.args)
                 and not any(kw.arg is None for kw in node.keywords)
